@@ -34,6 +34,7 @@ func pick(v Verdicts, prop string) Verdict {
 
 func runProp(prop string) func(Case) ev.Outcome {
 	return func(c Case) ev.Outcome {
+		pal.Store(int32(c.Pal))
 		exs, err := execute(c)
 		if err != nil {
 			return ev.Outcome{Excluded: "fixture_error", Overloaded: true, History: err.Error()}
@@ -44,7 +45,10 @@ func runProp(prop string) func(Case) ev.Outcome {
 			v := pick(vs, prop)
 			if i == 0 {
 				out.NonTrivial = v.NonTrivial
-				out.Classes = v.Classes
+				out.Classes = append(v.Classes, "pal:"+[]string{"plain", "big", "neg", "odd"}[c.Pal%numPals])
+				if c.Share && len(exs) == 2 {
+					out.Classes = append(out.Classes, "second_request_reusing_the_callers_resources_object")
+				}
 				out.Lenient = v.Lenient
 				out.Excluded = v.Skip
 			}
